@@ -75,6 +75,17 @@ fn zoned_extreme(op: &str, a: &Value) -> Value {
     let recv = || ZonedDateTime::try_new(at(&a["recv"]), iso(), tz.clone());
     fn unit<T>(_: &T) -> Value { Value::Null }
     match op {
+        // a provider that reports an impossible offset (hundreds of years): every reading must still end in a value or an error
+        "ZonedX.absurd" => {
+            let off = num(&a["off"]).clamp(i64::MIN as i128, i64::MAX as i128) as i64;
+            let zz = Zone { init: off, trans: vec![] };
+            let pp = SynthProvider::with_zone(zz.clone());
+            let tzz = time_zone_for(&zz, true);
+            run(|| { let x = ZonedDateTime::try_new(at(&a["recv"]), iso(), tzz.clone())?;
+                let _ = x.to_plain_datetime_with_provider(&pp); let _ = x.hour_with_provider(&pp); let _ = x.offset_with_provider(&pp); let _ = x.to_string_with_provider(&pp);
+                let _ = x.start_of_day_with_provider(&pp); let _ = x.hours_in_day_with_provider(&pp);
+                x.add_with_provider(&Duration::from(DateDuration::new(ffz(), ffz(), ffz(), temporal_rs::primitive::FiniteF64::from(1i8))?), None, &pp) }, unit)
+        }
         "ZonedX.add" => run(|| recv()?.add_with_provider(&arg_duration(&a["dur"])?, arg_ovf(a), &p), unit),
         "ZonedX.subtract" => run(|| recv()?.subtract_with_provider(&arg_duration(&a["dur"])?, arg_ovf(a), &p), unit),
         "ZonedX.until" => run(|| recv()?.until_with_provider(&ZonedDateTime::try_new(at(&a["other"]), iso(), tz.clone())?, arg_settings(&a["st"])?, &p), unit),
